@@ -44,4 +44,4 @@ class Tuner_handle_failure:
 
 
 # (the contract for a failed job of synchronous Hyperband -- reported to its bracket as NaN -- lives in contracts/c05.py)
-from contracts.c05 import SyncHB_report_as_failed, I_sbm_on_result  # noqa: F401,E402
+from contracts.c05 import SyncHB_report_as_failed, I_sbm_on_result, SyncHB_on_trial_error, I_ss_evaluation_failed, I_ss_debug_log, SyncHB_on_trial_result, I_sbm_level_to_prev_level, I_ss_on_trial_result  # noqa: F401,E402
